@@ -220,3 +220,27 @@ def nested_writer(c):
     c.check(all_of([ra == a, refs.cat(ro) == octs, (rb == b) if not c.symbolic else V.mkbool(V.tobool(rb) == b.t), re_ == e,
                     oid == "1.2.840.113549.1.7.3", not l0, not l1, not l2, not l3]), "nested: read back and nothing left")
     return len(data)
+
+
+@harness(P, per_job=True, params=lambda tier: [dict(hi=h) for h in ([(1 << 32) - 1] if tier == "quick" else [(1 << 32) - 1, (1 << 64) - 1])], max_steps=200000,
+         bounds="content LENGTH a solver variable over [0, 2^32) (thorough also [0, 2^64)): the content is an opaque byte string of symbolic length; tag class, constructed bit and tag number "
+         "(< 2^32) symbolic as in tlv_roundtrip. The length octets are proved minimal and the reader's length / consumption equal to the symbolic length for every length",
+         outside="content of the value (opaque); lengths above the stated range",
+         must_reach=("symbolic length: minimal DER length octets", "symbolic length: header read back", "symbolic length: consumes exactly"))
+def tlv_symlen(c, hi):
+    cls = c.int("cls", 0, 3)
+    cons = c.bool("cons")
+    num = c.int("num", 0, (1 << 32) - 1)
+    c.assume(V.mkbool(V.z3.Or((cls != 0).t, (num <= 36).t)) if c.symbolic else (cls != 0 or num <= 36))
+    content, L = c.blob("content", 0, hi)
+    enc = c.call(_asn1._pack_asn1, cls, cons, num, content)
+    ref = refs.der_tlv(cls, cons, num, content)
+    c.check(enc == ref, "symbolic length: minimal DER length octets")
+    hdr = c.call(_asn1._read_asn1_header, enc)
+    total = V.blen(enc)
+    c.check(all_of([hdr.tag.tag_class == cls, hdr.tag.tag_number == num, hdr.length == L, hdr.tag_length + L == total]), "symbolic length: header read back")
+    tag = _asn1.ASN1Tag(hdr.tag.tag_class, hdr.tag.tag_number, hdr.tag.is_constructed)
+    both = refs.cat(enc, b"\x05\x00")
+    v, used = c.call(_asn1._validate_tag, both, tag, tag)
+    c.check(all_of([used == total, v == content]), "symbolic length: consumes exactly")
+    return True
